@@ -290,12 +290,55 @@ Proof.
     + auto.
 Qed.
 
+(* the fuel given to the Euclidean loop is always enough: the remainder is more than
+   halved every two iterations *)
+Lemma rem_halves r r1 : r1 <> 0 -> Z.abs r1 < Z.abs r -> 2 * Z.abs (Z.rem r r1) < Z.abs r.
+Proof.
+  intros N L. rewrite <- Z.rem_abs; auto.
+  pose proof (Z.quot_rem' (Z.abs r) (Z.abs r1)) as Q.
+  pose proof (Z.rem_bound_pos (Z.abs r) (Z.abs r1) ltac:(lia) ltac:(lia)) as B.
+  assert (1 <= Z.quot (Z.abs r) (Z.abs r1)).
+  { apply Z.quot_le_lower_bound; lia. }
+  nia.
+Qed.
+
+Lemma egcd_fuel_enough n : 0 <= n -> forall fuel x r s t,
+  Z.abs r < 2 ^ n -> (2 * Z.to_nat n + 1 <= fuel)%nat -> egcd fuel x r s t <> None.
+Proof.
+  intros Hn. pattern n. apply natlike_ind; auto; clear n Hn.
+  - intros fuel x r s t Hr Hf. destruct fuel as [|f]; [lia|]. simpl.
+    assert (r = 0) by (simpl in Hr; lia). subst. simpl. discriminate.
+  - intros n Hn IH fuel x r s t Hr Hf.
+    rewrite Z2Nat.inj_succ in Hf; auto.
+    destruct fuel as [|f]; [lia|]. simpl.
+    destruct (Z.eqb_spec r 0) as [E|E]; [discriminate|].
+    destruct f as [|f]; [lia|]. simpl.
+    replace (x - Z.quot x r * r) with (Z.rem x r) by (pose proof (Z.quot_rem' x r); lia).
+    destruct (Z.eqb_spec (Z.rem x r) 0) as [E1|E1]; [discriminate|].
+    apply IH; [|lia].
+    replace (r - Z.quot r (Z.rem x r) * Z.rem x r) with (Z.rem r (Z.rem x r))
+      by (pose proof (Z.quot_rem' r (Z.rem x r)); lia).
+    pose proof (Z.rem_bound_abs x r E) as B.
+    pose proof (rem_halves r (Z.rem x r) E1 B).
+    rewrite Z.pow_succ_r in Hr; auto. lia.
+Qed.
+
+Lemma egcd_total a a' : egcd (egcd_fuel a a') a a' 1 0 <> None.
+Proof.
+  apply (egcd_fuel_enough (Z.log2 (Z.abs a') + 1)).
+  - pose proof (Z.log2_nonneg (Z.abs a')). lia.
+  - destruct (Z.eq_dec a' 0) as [->|N]. simpl. lia.
+    apply Z.log2_spec. lia.
+  - unfold egcd_fuel.
+    pose proof (Z.log2_nonneg (Z.abs a')). pose proof (Z.log2_nonneg (Z.abs a)). lia.
+Qed.
+
 (* the meet never adds elements: it is the exact intersection *)
 Lemma cg_meet_below x y v :
-  egcd (egcd_fuel (ca x) (ca y)) (ca x) (ca y) 1 0 <> None ->
   cgamma (cg_meet x y) v -> cgamma x v /\ cgamma y v.
 Proof.
-  unfold cg_meet. intros F.
+  pose proof (egcd_total (ca x) (ca y)) as F.
+  unfold cg_meet.
   destruct (cbot x) eqn:Bx; simpl. intros H; destruct (cgamma_bot _ H).
   destruct (cbot y) eqn:By; simpl. intros H; destruct (cgamma_bot _ H).
   destruct (Z.eqb_spec (ca x) 0) as [Ex|Ex]; destruct (Z.eqb_spec (ca y) 0) as [Ey|Ey]; simpl.
@@ -329,6 +372,9 @@ Proof.
     + replace (0 * ca x - ca y) with (- ca y) by ring. apply Z.divide_opp_r, Z.divide_refl.
     + auto.
 Qed.
+
+Lemma cg_meet_exact x y v : cgamma (cg_meet x y) v <-> (cgamma x v /\ cgamma y v).
+Proof. split. apply cg_meet_below. intros [H1 H2]. apply cg_meet_sound; auto. Qed.
 
 Lemma cg_narrow_sound x y v : cgamma x v -> cgamma y v -> cgamma (cg_narrow x y) v.
 Proof. unfold cg_narrow. destruct (cg_is_top x); auto. Qed.
